@@ -223,6 +223,12 @@ pub fn sqlite_types() -> Vec<Ty> {
         Ty::Double,
         Ty::Decimal(None),
         Ty::Decimal(Some((10, 2))),
+        // boundary parameters: the largest precision SQLite's renderer accepts, the smallest lengths
+        Ty::Decimal(Some((16, 4))),
+        Ty::Decimal(Some((1, 0))),
+        Ty::Char(Some(1)),
+        Ty::Str(StringLen::N(1)),
+        Ty::Binary(1),
         Ty::DateTime,
         Ty::Timestamp,
         Ty::TimestampTz,
